@@ -26,6 +26,7 @@ type Case struct {
 	Bad    int  // slot receiving a non-finite value (-1 none)
 	BadV   int  // 0 NaN, 1 +Inf, 2 -Inf
 	Closed bool // every ring / line of >= 3 vertices gets its first vertex repeated at the end
+	Near   bool `json:",omitempty"` // ... with its X moved by one ulp (an almost closed ring)
 	Many   int  `json:",omitempty"` // > 0: a geometry of the skeleton's kind with this many members (vertices for flat kinds)
 }
 
@@ -90,7 +91,11 @@ func build(c Case) geom.Geom {
 	if c.Closed {
 		cl := func(p []geom.Point) []geom.Point {
 			if len(p) >= 3 {
-				return append(p, p[0])
+				q := p[0]
+				if c.Near {
+					q.X = nearUlp(q.X)
+				}
+				return append(p, q)
 			}
 			return p
 		}
@@ -316,7 +321,7 @@ func main() {
 		return
 	}
 	r := report.New("C06", tier, "model_checking")
-	r.Rule = "E1: every structure tree of the six GeoJSON types with 1..3 members (first member non-empty, later members possibly empty), lengths 0..2(3) x every rotation of 19 finite float64 patterns (full product for points; every ordered pattern pair alternating between neighbouring vertices) : Encode text re-read with json.Number into a generic tree must be {type, coordinates} nested exactly as the type requires with [x,y] literals parsing bit-exactly; Decode(Encode(g)) bit-identical, also with every ring / line of >= 3 vertices closed by repeating its first vertex; the bytes returned by Encode unchanged by a later Encode call; each single coordinate slot replaced by NaN/+Inf/-Inf must make Encode fail; unsupported types rejected; geometries of 63..5000 members / vertices. Non-trivial = geometries with >= 2 members."
+	r.Rule = "E1: every structure tree of the six GeoJSON types with 1..3 members (first member non-empty, later members possibly empty), lengths 0..2(3) x every rotation of 22 finite float64 patterns (full product for points; every ordered pattern pair alternating between neighbouring vertices) : Encode text re-read with json.Number into a generic tree must be {type, coordinates} nested exactly as the type requires with [x,y] literals parsing bit-exactly; Decode(Encode(g)) bit-identical, also with every ring / line of >= 3 vertices closed by repeating its first vertex, exactly and one ulp off; the bytes returned by Encode unchanged by a later Encode call; each single coordinate slot replaced by NaN/+Inf/-Inf must make Encode fail; unsupported types rejected; geometries of 63..5000 members / vertices. Non-trivial = geometries with >= 2 members."
 	cfg := geomgen.Config{MaxMembers: 3, Lens: []int{0, 1, 2, 3}, FlatMax: 3, PolyRings: 2}
 	if tier == "thorough" {
 		cfg = geomgen.Config{MaxMembers: 3, Lens: []int{0, 1, 2, 3}, FlatMax: 4, PolyRings: 3}
@@ -385,6 +390,7 @@ func main() {
 		for rot := 0; rot < np; rot++ {
 			run(Case{Skel: s, Rot: rot, Bad: -1})
 			run(Case{Skel: s, Rot: rot, Bad: -1, Closed: true})
+			run(Case{Skel: s, Rot: rot, Bad: -1, Closed: true, Near: true})
 		}
 		// neighbouring vertices: every ordered pattern pair alternating along the
 		// vertex list in the same ordinate (x: a,b,a,.. y: b,a,b,..), open and
@@ -449,4 +455,12 @@ func main() {
 	r.AddEvals(n)
 	r.AddNontrivial(nontrivial)
 	r.Finish()
+}
+
+// nearUlp is the float64 next to v (upwards, except at the top of the range).
+func nearUlp(v float64) float64 {
+	if v == math.MaxFloat64 {
+		return math.Nextafter(v, 0)
+	}
+	return math.Nextafter(v, math.Inf(1))
 }
